@@ -1,4 +1,4 @@
-(* Property C18 - theorem statements only; every proof is `exact <lemma>` into Proofs/. *)
+(* Property C16 - theorem statements only; every proof is `exact <lemma>` into Proofs/. *)
 From Coq Require Import List Arith NArith ZArith Bool String.
 From Coq.Strings Require Import Byte.
 From Gopki.Model Require Import Bytes Base64 Pem Der Asn1 Text Algs Glue Pkcs8 Ext Rdn Time X509 Generate HashView Dir Plan Run Ops Cli Merge Validate Current.
@@ -6,9 +6,13 @@ From Gopki.Spec Require Import RegenSpec DirInv MergeSpec ValidateSpec X509Spec 
 From Gopki.Proofs Require Import RunProofs ExtProofs PlanProofs WfProofs X509Proofs DerProofs Asn1Proofs TimeRangeProofs RdnProofs GenerateProofs ValidateProofs TimeProofs AlgsProofs Base64Proofs PolicyProofs MergeProofs CliProofs OpsProofs FaultProofs HistoryProofs HashViewProofs Pkcs8Proofs RecoverProofs PemTornProofs AdmissionProofs PemProofs GlueProofs.
 Import ListNotations.
 
-(* the consistency check accepts exactly the hierarchies in which every entity reaches a root *)
-Theorem C18_consistent_iff :
-  forall es : list ent,
-    wf_dir es -> is_consistent es = true <-> (forall e : ent, In e es -> reaches_root es (e_alias e)).
-Proof. exact is_consistent_iff. Qed.
-Print Assumptions C18_consistent_iff.
+
+(* an admission extension decodes, with the CommonPKI AdmissionSyntax decoder written from the specification, to exactly the
+   configured tree (authorities with their GeneralName kind, naming authorities, profession infos with every optional member) *)
+Theorem C16_admission_decodes :
+  forall (crit : bool) (a : admission) (e : ext),
+    build_admission cur_fx crit a = Some e ->
+    exists (t : tlv) (v : s_adm),
+      x_value e = enc t /\ spec_dec_admission t = Some v /\ view_admission cur_fx a = Some v /\ x_crit e = crit.
+Proof. exact (admission_decodes cur_fx eq_refl). Qed.
+Print Assumptions C16_admission_decodes.
